@@ -7,8 +7,14 @@ images):
 * image used for the arms = the image with masked pixels (msk != valid_pixels) excluded, 3x3-median-filtered (the real
   pandora median filter is called for that - C10 covers the filter itself), restricted to the area on which the cost volume
   is computed (rim of `offset_row_col` pixels removed);
-* sub-pixel planes use the right image shifted by the fractional part (real `shift_right_img` = order-1 interpolation); a
-  shifted pixel is masked as soon as one of the two columns it interpolates is masked;
+* a plane of disparity d compares the left pixel of column c with the right image at the position c + d ("the window
+  centred at column + disparity in the right image, linearly interpolated for fractional disparities"): with
+  fl = floor(d) and f = d - fl in [0, 1), that is column c + fl of the right image shifted by f, i.e. of the image
+  (1 - f) * I[:, j] + f * I[:, j + 1] (one column less).  So d = -0.75 pairs with the 0.25-shift at column c - 1,
+  d = -1.25 with the 0.75-shift at column c - 2, d = 0.75 with the 0.75-shift at column c (sub-pixel precisions 1, 2, 4).
+  The shifted images are those of the real `shift_right_img` (order-1 interpolation) after each of them has been checked
+  against the linear interpolation above (the naive interpolation is used instead should they differ); a shifted pixel
+  is masked as soon as one of the two columns it interpolates is masked;
 * arm(p, direction) = 0 for a masked anchor, otherwise the longest run of pixels p' with |I(p) - I(p')| < cbca_intensity,
   distance(p, p') < cbca_distance, inside the image and not masked; if that is 0 and the immediate neighbour exists and is
   not masked the arm is 1 (one-pixel minimum);
@@ -99,8 +105,14 @@ def oracle_supports(case):
 
     ds_right = _dataset(right, None)
     arms_right, imgs_right = [], []
-    for k, sh in enumerate(shift_right_img(ds_right, subpix)):
-        im = np.array(sh["im"].data, dtype=np.float32)
+    real_shifts = shift_right_img(ds_right, subpix)
+    for k in range(subpix):
+        # entry k of the list = right image shifted by the fraction k / subpix
+        im = _naive_shift(right, k / float(subpix))
+        if k < len(real_shifts):
+            real = np.array(real_shifts[k]["im"].data, dtype=np.float32)
+            if real.shape == im.shape and np.allclose(real, im, rtol=0, atol=1e-3):
+                im = real  # same image up to rounding: share the rounding of the real interpolation
         if case["rmsk"] is not None:
             bad = np.asarray(case["rmsk"]) != VALID
             if k > 0:
@@ -111,11 +123,23 @@ def oracle_supports(case):
     return arms_left, arms_right, img_left, imgs_right
 
 
-def oracle_plane(plane, d, arms_left, arms_right, subpix):
-    """plane : 2D (row, col) costs of the computed area; returns (expected, has_correspondent, region_size)"""
+def _naive_shift(right, frac):
+    """right image linearly interpolated at the positions col + frac, 0 <= frac < 1 (one column less when frac > 0)"""
+    im = np.array(right, dtype=np.float64)
+    if frac == 0:
+        return im.astype(np.float32)
+    return ((1.0 - frac) * im[:, :-1] + frac * im[:, 1:]).astype(np.float32)
+
+
+def oracle_plane(plane, d, arms_left, arms_right, subpix, swap_fraction=False):
+    """plane : 2D (row, col) costs of the computed area; returns (expected, has_correspondent, region_size).
+    `swap_fraction` (statistics only, never used as expectation): pair the plane with the shift 1 - frac(d) instead of
+    frac(d), to measure whether the case can tell the two pairings apart."""
     n0, n1 = plane.shape
     fl = int(np.floor(d))
-    idx = int(round((d - fl) * subpix))
+    idx = int(round((d - fl) * subpix))  # position c + d = column c + floor(d) of the image shifted by d - floor(d)
+    if swap_fraction and idx != 0:
+        idx = subpix - idx
     ar = arms_right[idx]
     exp = np.full((n0, n1), np.nan)
     has = np.zeros((n0, n1), dtype=bool)
@@ -237,8 +261,9 @@ def _arm_reason(case):
     return "-".join(parts)
 
 
-def check_case(case, planes_alone=True):
-    """returns (list of (clause, witness_class, message), info dict)"""
+def check_case(case, planes_alone=True, alone_max=None):
+    """returns (list of (clause, witness_class, message), info dict); `alone_max`: at most that many planes (evenly
+    spaced, first and last included) are also aggregated alone (None = every plane)"""
     out = []
     cost = np.array(case["cost"], dtype=np.float32)
     disps = _disp_range(case["dmin"], case["dmax"], case["subpix"])
@@ -270,6 +295,7 @@ def check_case(case, planes_alone=True):
                     "input %r at (row %d, col %d, disp %s) became NaN" % (float(cost[r, c, k]), r, c, disps[k])))
 
     maxsize, partial = 0, False
+    negfrac, discr = 0, False  # planes d < 0 with frac(d) not in {0, 1/2}; can the case tell frac(d) from 1 - frac(d) ?
     full = (2 * case["distance"] - 1) ** 2
     inner_in, inner_out = _crop(cost, offset), _crop(got, offset)
     for k, d in enumerate(disps):
@@ -278,10 +304,19 @@ def check_case(case, planes_alone=True):
         if chk.any():
             maxsize = max(maxsize, int(size[chk].max()))
             partial = partial or bool(((size[chk] > 1) & (size[chk] < full)).any())
+        fpart = float(d) - np.floor(d)
+        if float(d) < 0 and fpart not in (0.0, 0.5):
+            negfrac += 1
+            if not discr and chk.any():
+                exp_sw, has_sw, _ = oracle_plane(inner_in[:, :, k], float(d), arms_left, arms_right, case["subpix"],
+                                                 swap_fraction=True)
+                discr = bool((chk & has_sw & ~np.isclose(exp_sw, exp, rtol=RTOL, atol=1e-7, equal_nan=True)).any())
         bad = chk & ~np.isclose(inner_out[:, :, k], exp, rtol=RTOL, atol=1e-7)
         if bad.any():
             r, c = [int(v[0]) for v in np.nonzero(bad)]
             frac = "sub" if float(d) != np.floor(d) else "int"
+            if fpart not in (0.0, 0.5):
+                frac = "negquarter" if float(d) < 0 else "quarter"
             if why is None:
                 why, real_sup = diagnose(case, cost, disps, oracle)
             wclass = why if why != "supports-agree" else "supports-agree-%s-disp-%s" % (_arm_reason(case), frac)
@@ -302,7 +337,11 @@ def check_case(case, planes_alone=True):
     # (the statement is silent on the values of the rim when offset_row_col > 0: only the NaN clauses apply there)
 
     if planes_alone and len(disps) > 1:
-        for k, d in enumerate(disps):
+        chosen = range(len(disps))
+        if alone_max is not None and len(disps) > alone_max:
+            chosen = sorted({int(round(v)) for v in np.linspace(0, len(disps) - 1, alone_max)})
+        for k in chosen:
+            d = disps[k]
             alone_case = dict(case)
             try:
                 alone = real_aggregate(alone_case, cost[:, :, k:k + 1], np.asarray(disps)[k:k + 1])
@@ -313,7 +352,7 @@ def check_case(case, planes_alone=True):
             if not same(alone[:, :, 0], got[:, :, k]):
                 out.append(("C11.planes.independent", "plane-differs-" + _arm_reason(case),
                             "plane disp=%s aggregated alone differs from the same plane aggregated within the volume" % (d,)))
-    return out, {"nontrivial": maxsize > 1, "maxsize": maxsize, "partial": partial}
+    return out, {"nontrivial": maxsize > 1, "maxsize": maxsize, "partial": partial, "negfrac": negfrac, "discr": discr}
 
 
 # --------------------------------------------------------------------------------------------------------------------
@@ -468,6 +507,19 @@ def _rand_image(rng, n0, n1, style):
     vals = np.array([0, 10, 50], dtype=np.float32)
     if style == "const":
         return np.full((n0, n1), rng.choice(vals), dtype=np.float32)
+    if style == "vedges":
+        # vertical intensity edges (columns piecewise constant, a few deviating pixels): they survive the 3x3 median
+        # filter, and the 1/4- and 3/4-shifted images then see different jumps (2.5 / 7.5 on 0|10, 10 / 30 on 10|50 ...)
+        line = np.empty(n1, dtype=np.float32)
+        cur = rng.choice(vals)
+        for c in range(n1):
+            if c > 0 and rng.random() < 0.45:
+                cur = rng.choice(vals[vals != cur])
+            line[c] = cur
+        img = np.tile(line, (n0, 1))
+        spot = rng.random((n0, n1)) < 0.08
+        img[spot] = rng.choice(vals, size=int(spot.sum()))
+        return img
     img = rng.choice(vals, size=(n0, n1)).astype(np.float32)
     if style == "blocks":
         keep = rng.random((n0, n1))
@@ -494,10 +546,18 @@ def _rand_mask(rng, n0, n1, style):
     return msk
 
 
-def make_case(rng, n0, n1, offset, subpix, distance, intensity):
+def make_case(rng, n0, n1, offset, subpix, distance, intensity, directed=False, maxwidth=4):
+    """`directed` (used for subpix 4): right image with vertical edges, few masked pixels, negative first disparity;
+    `maxwidth`: largest dmax - dmin"""
     style = str(rng.choice(["iid", "blocks", "blocks", "const"]))
+    if directed:
+        style = "vedges"
     left = _rand_image(rng, n0, n1, style)
     mode = rng.random()
+    if directed and rng.random() < 0.5:
+        # uniform left image: the left arms are as long as cbca_distance allows, the right arms decide the region
+        left = _rand_image(rng, n0, n1, "const")
+        mode = 1.0
     if mode < 0.4:  # right = left translated (true disparity) with fresh values entering
         sh = int(rng.integers(-1, 2))
         right = _rand_image(rng, n0, n1, style)
@@ -510,10 +570,16 @@ def make_case(rng, n0, n1, offset, subpix, distance, intensity):
     else:
         right = _rand_image(rng, n0, n1, style)
     mstyles = ["none", "none", "allvalid", "one", "sparse", "sparse", "dense"]
+    if directed:
+        mstyles = ["none", "none", "none", "allvalid", "one", "one", "sparse"]
     lmsk = _rand_mask(rng, n0, n1, str(rng.choice(mstyles)))
     rmsk = _rand_mask(rng, n0, n1, str(rng.choice(mstyles)))
     dmin = int(rng.integers(-2, 1))
     dmax = int(rng.integers(max(dmin, -1), 3))
+    if directed:
+        dmin = int(rng.integers(-2, 0))
+        dmax = int(rng.integers(dmin + 1, 2))
+    dmax = min(dmax, dmin + maxwidth)
     disps = _disp_range(dmin, dmax, subpix)
     cost = rng.integers(0, 21, size=(n0, n1, len(disps))).astype(np.float32)
     pnan = float(rng.choice([0.0, 0.1, 0.3]))
@@ -631,12 +697,13 @@ def run(tier: str, seed: int) -> dict:
     n_kernel_eval = rec.evaluations
 
     # ---- full aggregation, smallest images first
-    configs = list(itertools.product((0, 1), (1, 2), (1, 2, 3, 5), (5.0, 30.0)))
-    shapes_of = {(o, s): _shapes(o, s) for o in (0, 1) for s in (1, 2)}
+    configs = list(itertools.product((0, 1), (1, 2, 4), (1, 2, 3, 5), (5.0, 30.0)))
+    shapes_of = {(o, s): _shapes(o, s) for o in (0, 1) for s in (1, 2, 4)}
     n_rounds = max(len(v) for v in shapes_of.values())
     sizes_seen, partial_cases = set(), 0
+    n_sub4 = n_negfrac = n_discr = 0  # subpix-4 volumes / with a plane d < 0, frac(d) in {1/4, 3/4} / that tell the shifts apart
     found = set()
-    sampled = 0
+    sampled = sampled4 = 0
     work = [(rnd, cfg) for _ in range(passes) for rnd in range(n_rounds) for cfg in configs]
     for rnd, (offset, subpix, distance, intensity) in work:
         if time.time() > deadline:
@@ -645,10 +712,29 @@ def run(tier: str, seed: int) -> dict:
         if rnd >= len(shapes):
             continue
         n0, n1 = shapes[rnd]
-        case = make_case(rng, n0, n1, offset, subpix, distance, intensity)
-        fails, info = check_case(case, planes_alone=True)
+        if subpix == 4:
+            # quarter-pixel planes: mostly directed cases (vertical edges in the right image, negative first disparity),
+            # disparity range at most 2 (thorough: sometimes 4) wide = at most 9 (17) planes
+            wide = (not quick) and rng.random() < 0.3
+            case = make_case(rng, n0, n1, offset, subpix, distance, intensity, directed=bool(rng.random() < 0.65),
+                             maxwidth=4 if wide else 2)
+        else:
+            case = make_case(rng, n0, n1, offset, subpix, distance, intensity)
+        # (quick tier, subpix 4: 3 of the up to 9 planes are also aggregated alone, to stay within the wall budget)
+        fails, info = check_case(case, planes_alone=True, alone_max=3 if (quick and subpix == 4) else None)
+        if subpix == 4:
+            n_sub4 += 1
+            n_negfrac += info.get("negfrac", 0) > 0
+            n_discr += bool(info.get("discr"))
         sample = None
-        if info["nontrivial"] and sampled < 3 and rnd in (0, 3, 8):
+        if subpix == 4 and info.get("discr") and sampled4 < 1:
+            sample = {"kind": "agg", "shape": [n0, n1], "offset": offset, "subpix": subpix, "distance": distance,
+                      "intensity": intensity, "disp": [case["dmin"], case["dmax"]],
+                      "planes": [float(d) for d in _disp_range(case["dmin"], case["dmax"], subpix)],
+                      "right": case["right"], "rmsk": case["rmsk"],
+                      "negative_quarter_planes": info["negfrac"], "largest_region": info["maxsize"]}
+            sampled4 += 1
+        elif info["nontrivial"] and sampled < 3 and rnd in (0, 3, 8):
             sample = {"kind": "agg", "shape": [n0, n1], "offset": offset, "subpix": subpix, "distance": distance,
                       "intensity": intensity, "disp": [case["dmin"], case["dmax"]],
                       "masks": [case["lmsk"] is not None, case["rmsk"] is not None],
@@ -669,18 +755,26 @@ def run(tier: str, seed: int) -> dict:
     n_agg = rec.evaluations - n_kernel_eval
     bound = ("full cbca: image pairs from 2x2 up to 5x7 over {0,10,50} (iid / blocky / constant; right = translated left, copy "
              "or independent), masks none/all-valid/one/sparse/dense over {valid,nodata,invalid} on each side, integer costs "
-             "0..20 with NaN holes (p in {0,.1,.3}), disparity ranges within [-2,2], subpix {1,2}, offset_row_col {0,1}, "
+             "0..20 with NaN holes (p in {0,.1,.3}), disparity ranges within [-2,2], subpix {1,2,4}, offset_row_col {0,1}, "
              "cbca_distance {1,2,3,5}, cbca_intensity {5.,30.}; %d sampled volumes (seed %d, tier %s), every plane also "
-             "aggregated alone; kernel cross_support alone on all %d (image over {0,5,10,40,masked} of shape 1x1..1x4, 2x1..4x1, "
+             "aggregated alone%s; kernel cross_support alone on all %d (image over {0,5,10,40,masked} of shape 1x1..1x4, 2x1..4x1, "
              "2x2; distance; intensity) and kernels cross_support/cbca_step_1..4 alone on %d random integer inputs up to 5x7 "
-             "(arbitrary arm tables bounded by the left image)" % (n_agg, seed, tier, n_exhaustive, n_kernel_eval - n_exhaustive))
+             "(arbitrary arm tables bounded by the left image). subpix 4 (planes ..,-1.25,-1,-0.75,-0.5,-0.25,0,0.25,..): "
+             "65%% of the volumes are directed (right image with vertical intensity edges over {0,10,50} + 8%% deviating "
+             "pixels, masks none/all-valid/one/sparse, first disparity in {-2,-1}, last <= 1), range at most 2 wide"
+             "%s: %d subpix-4 volumes, %d with a plane d < 0 whose fraction d - floor(d) is 1/4 or 3/4, %d of them able to "
+             "tell the pairing with the frac(d)-shifted right image from the pairing with the (1 - frac(d))-shifted one "
+             "(the expected value of a checked cell differs)"
+             % (n_agg, seed, tier, " (subpix 4: first, middle and last plane)" if quick else "", n_exhaustive,
+                n_kernel_eval - n_exhaustive, "" if quick else " (4 wide for 30%)", n_sub4, n_negfrac, n_discr))
     rule = ("cases drawn with numpy default_rng(seed), %d passes over the shapes, smallest first, one volume for each "
-            "of the 32 (offset, subpix, distance, intensity) configurations and each shape, stopped early only if the wall "
+            "of the 48 (offset, subpix, distance, intensity) configurations and each shape, stopped early only if the wall "
             "budget is exhausted; a case is distinct by the "
             "bytes of all its inputs; an aggregation case is non-trivial when at least one checked output (non-NaN input cost, "
             "right correspondent exists) has a support region of more than one pixel (region sizes seen: %d..%d; %d cases have "
             "a checked region that is neither a single pixel nor the full (2*distance-1)^2 square); kernel cases always count. "
-            "Oracle image = real 3x3 median filter of the masked image (and real shift_right_img for sub-pixel planes) cropped "
+            "Oracle image = real 3x3 median filter of the masked image (sub-pixel plane d: column c + floor(d) of the right image "
+            "shifted by d - floor(d); real shift_right_img checked against (1-f)*I[j] + f*I[j+1], atol 1e-3) cropped "
             "to the computed area; value clause only where column c+d exists in the right support; quotient compared with "
             "rtol 1e-5, everything else exactly; failing witnesses are greedily reduced (planes, masks) before being recorded."
             % (passes, min(sizes_seen) if sizes_seen else 0, max(sizes_seen) if sizes_seen else 0, partial_cases))
